@@ -159,6 +159,8 @@ class TagFlow:
                 del state[k]
             return
         if isinstance(target, ast.Subscript):
+            if getattr(self.policy, "inplace_store_keeps_tags", False):
+                return  # e.g. dtype: a subscript store never changes the target's dtype
             # partial in-place update: weak
             bp = path_of(target.value)
             if bp is not None and not self.may:
